@@ -307,18 +307,26 @@ Ltac split_bools :=
   end.
 
 Lemma encode_rune_1 r : 0 <= r < 128 -> encode_rune r = [r].
-Proof. intros H. unfold encode_rune, valid_rune. split_bools. reflexivity. Qed.
+Proof. intros H. unfold encode_rune, valid_rune. split_bools; reflexivity. Qed.
 
 Lemma encode_rune_2 r : 128 <= r < 2048 -> encode_rune r = [192 + r / 64; 128 + r mod 64].
-Proof. intros H. unfold encode_rune, valid_rune. split_bools. reflexivity. Qed.
+Proof. intros H. unfold encode_rune, valid_rune. split_bools; reflexivity. Qed.
 
 Lemma encode_rune_3 r : 2048 <= r < 65536 -> ~ (55296 <= r <= 57343) ->
   encode_rune r = [224 + r / 4096; 128 + (r / 64) mod 64; 128 + r mod 64].
-Proof. intros H H'. unfold encode_rune, valid_rune. split_bools. reflexivity. Qed.
+Proof. intros H H'. unfold encode_rune, valid_rune. split_bools; reflexivity. Qed.
 
 Lemma encode_rune_4 r : 65536 <= r <= 1114111 ->
   encode_rune r = [240 + r / 262144; 128 + (r / 4096) mod 64; 128 + (r / 64) mod 64; 128 + r mod 64].
-Proof. intros H. unfold encode_rune, valid_rune. split_bools. reflexivity. Qed.
+Proof. intros H. unfold encode_rune, valid_rune. split_bools; reflexivity. Qed.
+
+Lemma list2_eq (a b a' b' : Z) : a = a' -> b = b' -> [a; b] = [a'; b'].
+Proof. intros -> ->. reflexivity. Qed.
+Lemma list3_eq (a b c a' b' c' : Z) : a = a' -> b = b' -> c = c' -> [a; b; c] = [a'; b'; c'].
+Proof. intros -> -> ->. reflexivity. Qed.
+Lemma list4_eq (a b c d a' b' c' d' : Z) :
+  a = a' -> b = b' -> c = c' -> d = d' -> [a; b; c; d] = [a'; b'; c'; d'].
+Proof. intros -> -> -> ->. reflexivity. Qed.
 
 (* a successful decode of a non-ASCII head consumed exactly one well-formed sequence, which is
    also what [encode_rune] produces for the decoded value *)
@@ -327,7 +335,7 @@ Lemma decode_rune_multi b0 t r rest :
   exists sq, b0 :: t = sq ++ rest /\ utf8_seq sq /\ encode_rune r = sq /\
              (forall rest', decode_rune (sq ++ rest') = Some (r, rest')).
 Proof.
-  intros Hb. unfold decode_rune.
+  intros Hb. unfold decode_rune at 1.
   pose proof (proj2 (Z.ltb_ge b0 128) Hb) as E1. rewrite E1.
   destruct (in_range 194 223 b0) eqn:E2.
   { destruct t as [|b1 t1]; [intros H; discriminate H|].
@@ -335,27 +343,497 @@ Proof.
     intros H. injection H as <- <-.
     pose proof (proj1 (in_range_iff _ _ _) E2) as P2.
     pose proof (proj1 (in_range_iff _ _ _) C1) as Q1.
-    exists [b0; b1]. split; [reflexivity|]. split; [cbn; lia|]. split.
-    - rewrite encode_rune_2 by lia. f_equal; [|f_equal]; Z.div_mod_to_equations; lia.
-    - intros rest'. cbn [app]. rewrite E1, E2, C1. reflexivity. }
+    exists [b0; b1]. split; [reflexivity|]. split; [unfold utf8_seq; lia|]. split.
+    - rewrite encode_rune_2 by lia. apply list2_eq; Z.div_mod_to_equations; lia.
+    - intros rest'. cbn [app]. unfold decode_rune. rewrite E1, E2, C1. reflexivity. }
   destruct (in_range 224 239 b0) eqn:E3.
   { destruct t as [|b1 [|b2 t2]]; [intros H; discriminate H|intros H; discriminate H|].
     cbv zeta.
     destruct (in_range (if b0 =? 224 then 160 else 128) (if b0 =? 237 then 159 else 191) b1 && cont b2)
       eqn:C; [|intros H; discriminate H].
     intros H. injection H as <- <-.
+    assert (Happ : forall rest', decode_rune ([b0; b1; b2] ++ rest') =
+                                 Some ((b0 - 224) * 4096 + (b1 - 128) * 64 + (b2 - 128), rest')).
+    { intros rest'. cbn [app]. unfold decode_rune. cbv zeta. rewrite E1, E2, E3, C. reflexivity. }
     pose proof (proj1 (in_range_iff _ _ _) E3) as P3.
-    pose proof C as C'. apply andb_true_iff in C'. destruct C' as [Q1 Q2].
-    apply in_range_iff in Q1. apply in_range_iff in Q2.
-    destruct (Z.eqb_spec b0 224) as [F1|F1]; destruct (Z.eqb_spec b0 237) as [F2|F2]; try lia.
-    all: exists [b0; b1; b2]; (split; [reflexivity|]); (split; [cbn; lia|]); split;
-      [rewrite encode_rune_3 by lia; f_equal; [|f_equal; [|f_equal]]; Z.div_mod_to_equations; lia
-      |intros rest'; cbn [app]; rewrite E1, E2, E3; try rewrite (proj2 (Z.eqb_eq _ _) F1);
-       try rewrite (proj2 (Z.eqb_neq _ _) F1); try rewrite (proj2 (Z.eqb_eq _ _) F2);
-       try rewrite (proj2 (Z.eqb_neq _ _) F2)]. }
-  admit_marker.
+    apply andb_true_iff in C. destruct C as [Q1 Q2].
+    apply in_range_iff in Q1. apply in_range_iff in Q2. revert Q1.
+    destruct (Z.eqb_spec b0 224) as [F1|F1]; destruct (Z.eqb_spec b0 237) as [F2|F2]; intros Q1;
+      try (exfalso; lia).
+    all: exists [b0; b1; b2]; (split; [reflexivity|]); (split; [unfold utf8_seq; lia|]);
+      (split; [|exact Happ]); rewrite encode_rune_3 by lia;
+      apply list3_eq; Z.div_mod_to_equations; lia. }
+  destruct (in_range 240 244 b0) eqn:E4; [|intros H; discriminate H].
+  destruct t as [|b1 [|b2 [|b3 t3]]];
+    [intros H; discriminate H|intros H; discriminate H|intros H; discriminate H|].
+  cbv zeta.
+  destruct (in_range (if b0 =? 240 then 144 else 128) (if b0 =? 244 then 143 else 191) b1
+            && cont b2 && cont b3) eqn:C; [|intros H; discriminate H].
+  intros H. injection H as <- <-.
+  assert (Happ : forall rest', decode_rune ([b0; b1; b2; b3] ++ rest') =
+    Some ((b0 - 240) * 262144 + (b1 - 128) * 4096 + (b2 - 128) * 64 + (b3 - 128), rest')).
+  { intros rest'. cbn [app]. unfold decode_rune. cbv zeta. rewrite E1, E2, E3, E4, C. reflexivity. }
+  pose proof (proj1 (in_range_iff _ _ _) E4) as P4.
+  apply andb_true_iff in C. destruct C as [C Q3]. apply andb_true_iff in C. destruct C as [Q1 Q2].
+  apply in_range_iff in Q1. apply in_range_iff in Q2. apply in_range_iff in Q3. revert Q1.
+  destruct (Z.eqb_spec b0 240) as [F1|F1]; destruct (Z.eqb_spec b0 244) as [F2|F2]; intros Q1;
+    try (exfalso; lia).
+  all: exists [b0; b1; b2; b3]; (split; [reflexivity|]); (split; [unfold utf8_seq; lia|]);
+    (split; [|exact Happ]); rewrite encode_rune_4 by lia;
+    apply list4_eq; Z.div_mod_to_equations; lia.
 Qed.
 
+(* ---------------------------------------------------------------- validity as an invariant *)
+
+Definition valid (s : bytes) : Prop := exists fuel, utf8_valid_f fuel s = true.
+
+Lemma valid_of_utf8_valid s : utf8_valid s = true -> valid s.
+Proof. intros H. exists (length s). exact H. Qed.
+
+Lemma valid_inv c t : valid (c :: t) ->
+  exists r rest, decode_rune (c :: t) = Some (r, rest) /\ valid rest.
+Proof.
+  intros [fuel H]. destruct fuel as [|f]; cbn [utf8_valid_f] in H; [discriminate H|].
+  destruct (decode_rune (c :: t)) as [[r rest]|]; [|discriminate H].
+  exists r, rest. split; [reflexivity|]. exists f. exact H.
+Qed.
+
+Lemma valid_ascii_tail c t : valid (c :: t) -> c < 128 -> valid t.
+Proof.
+  intros Hv Hc. destruct (valid_inv _ _ Hv) as (r & rest & Hd & Hr).
+  rewrite (decode_rune_ascii _ _ Hc) in Hd. injection Hd as _ <-. exact Hr.
+Qed.
+
+Lemma valid_peel ds : forall s, ascii ds = true -> valid (ds ++ s) -> valid s.
+Proof.
+  induction ds as [|d ds IH]; intros s Ha Hv; [exact Hv|].
+  apply ascii_cons in Ha. destruct Ha as [Hd Ha].
+  apply IH; [exact Ha|]. exact (valid_ascii_tail d (ds ++ s) Hv Hd).
+Qed.
+
+Lemma wf_bytes_app_r a b : wf_bytes (a ++ b) = true -> wf_bytes b = true.
+Proof. unfold wf_bytes. rewrite forallb_app, andb_true_iff. tauto. Qed.
+
+(* ---------------------------------------------------------------- one step of the slow path *)
+
+Ltac simple_case e s2 Hv :=
+  let H := fresh "H" in let o := fresh "o" in let Ho := fresh "Ho" in
+  intros H; injection H as <- <-; right; exists [92; e], s2;
+  split; [reflexivity|]; split; [reflexivity|]; split;
+  [apply (valid_peel [92; e] s2); [reflexivity|exact Hv]
+  |intros o Ho; cbn [app]; apply D_simple; [unfold simple_escape; lia|exact Ho]].
+
+Lemma unquote_char_sound c s1 out rest :
+  0 <= c -> valid (c :: s1) -> c <> 34 -> c <> 10 ->
+  unquote_char ((c :: s1) ++ [34]) = Some (out, rest) ->
+  rest = [] \/
+  exists item s', c :: s1 = item ++ s' /\ rest = s' ++ [34] /\ valid s' /\
+                  forall o, denotes_payload s' o -> denotes_payload (c :: s1) (out ++ o).
+Proof.
+  intros Hc0 Hv H34 H10. cbn [app]. unfold unquote_char.
+  rewrite (eqb_false _ _ H34).
+  destruct (Z.leb_spec 128 c) as [E128|E128].
+  { (* a raw multi-byte character *)
+    destruct (valid_inv _ _ Hv) as (r & rest0 & Hd & Hv').
+    destruct (decode_rune_multi _ _ _ _ E128 Hd) as (sq & Hsq & Hseq & Henc & Happ).
+    change (c :: s1 ++ [34]) with ((c :: s1) ++ [34]). rewrite Hsq, <- app_assoc, Happ.
+    intros H. injection H as <- <-. right. exists sq, rest0.
+    split; [reflexivity|]. split; [reflexivity|]. split; [exact Hv'|].
+    intros o Ho. rewrite Henc. apply D_utf8; assumption. }
+  destruct (Z.eqb_spec c 92) as [->|N92]; cbn [negb].
+  2: { (* a raw ASCII byte *)
+    intros H. injection H as <- <-. right. exists [c], s1.
+    split; [reflexivity|]. split; [reflexivity|]. split; [exact (valid_ascii_tail _ _ Hv E128)|].
+    intros o Ho. cbn [app]. apply D_raw; [lia|exact H34|exact N92|exact H10|exact Ho]. }
+  destruct s1 as [|e s2]; cbn [app].
+  { intros H. vm_compute in H. injection H as _ <-. left. reflexivity. }
+  destruct (Z.eqb_spec e 97) as [->|N97]; [simple_case 97 s2 Hv|].
+  destruct (Z.eqb_spec e 98) as [->|N98]; [simple_case 98 s2 Hv|].
+  destruct (Z.eqb_spec e 102) as [->|N102]; [simple_case 102 s2 Hv|].
+  destruct (Z.eqb_spec e 110) as [->|N110]; [simple_case 110 s2 Hv|].
+  destruct (Z.eqb_spec e 114) as [->|N114]; [simple_case 114 s2 Hv|].
+  destruct (Z.eqb_spec e 116) as [->|N116]; [simple_case 116 s2 Hv|].
+  destruct (Z.eqb_spec e 118) as [->|N118]; [simple_case 118 s2 Hv|].
+  destruct (Z.eqb_spec e 120) as [->|N120].
+  { destruct (hex_val 2 0 (s2 ++ [34])) as [[v r]|] eqn:Hh; [|intros H; discriminate H].
+    intros H. injection H as <- <-.
+    destruct (hex_val2_sound _ _ _ Hh) as (h1 & h2 & x1 & x2 & s' & -> & -> & Hx1 & Hx2 & ->).
+    right. exists [92; 120; h1; h2], s'.
+    split; [reflexivity|]. split; [reflexivity|]. split.
+    - apply (valid_peel [92; 120; h1; h2] s'); [|exact Hv].
+      pose proof (hexdig_ascii _ _ Hx1). pose proof (hexdig_ascii _ _ Hx2).
+      rewrite !ascii_cons. repeat split; try lia.
+    - intros o Ho. cbn [app]. apply D_hex; assumption. }
+  destruct (Z.eqb_spec e 117) as [->|N117].
+  { destruct (hex_val 4 0 (s2 ++ [34])) as [[v r]|] eqn:Hh; [|intros H; discriminate H].
+    destruct (valid_rune v) eqn:Vr; [|intros H; discriminate H].
+    intros H. injection H as <- <-.
+    destruct (hex_val_sound _ _ _ _ _ Hh) as (ds & xs & s' & -> & -> & Hl & HF & Hval).
+    right. exists (92 :: 117 :: ds), s'.
+    split; [reflexivity|]. split; [reflexivity|]. split.
+    - apply (valid_peel (92 :: 117 :: ds) s'); [|exact Hv].
+      rewrite !ascii_cons. split; [lia|]. split; [lia|]. exact (hexdigs_ascii _ _ HF).
+    - intros o Ho. apply D_u; [exact Hl|exists xs; split; assumption|apply valid_rune_iff; exact Vr|exact Ho]. }
+  destruct (Z.eqb_spec e 85) as [->|N85].
+  { destruct (hex_val 8 0 (s2 ++ [34])) as [[v r]|] eqn:Hh; [|intros H; discriminate H].
+    destruct (valid_rune v) eqn:Vr; [|intros H; discriminate H].
+    intros H. injection H as <- <-.
+    destruct (hex_val_sound _ _ _ _ _ Hh) as (ds & xs & s' & -> & -> & Hl & HF & Hval).
+    right. exists (92 :: 85 :: ds), s'.
+    split; [reflexivity|]. split; [reflexivity|]. split.
+    - apply (valid_peel (92 :: 85 :: ds) s'); [|exact Hv].
+      rewrite !ascii_cons. split; [lia|]. split; [lia|]. exact (hexdigs_ascii _ _ HF).
+    - intros o Ho. apply D_U; [exact Hl|exists xs; split; assumption|apply valid_rune_iff; exact Vr|exact Ho]. }
+  destruct (is_octal e) eqn:Oe.
+  { destruct s2 as [|d1 [|d2 s3]]; cbn [app].
+    - intros H; discriminate H.
+    - change (is_octal 34) with false. rewrite andb_false_r. intros H; discriminate H.
+    - destruct (is_octal d1) eqn:O1; [|intros H; discriminate H].
+      destruct (is_octal d2) eqn:O2; [|intros H; discriminate H].
+      cbn [andb]. cbv zeta.
+      destruct (_ <=? 255) eqn:Le; [|intros H; discriminate H].
+      intros H. injection H as <- <-.
+      apply in_range_iff in Oe. apply in_range_iff in O1. apply in_range_iff in O2.
+      apply Z.leb_le in Le.
+      right. exists [92; e; d1; d2], s3.
+      split; [reflexivity|]. split; [reflexivity|]. split.
+      + apply (valid_peel [92; e; d1; d2] s3); [|exact Hv].
+        rewrite !ascii_cons. repeat split; try lia.
+      + intros o Ho. cbn [app].
+        apply D_oct; [exact Oe|exact O1|exact O2|reflexivity|exact Le|exact Ho]. }
+  destruct (Z.eqb_spec e 92) as [->|N92']; [simple_case 92 s2 Hv|].
+  destruct (Z.eqb_spec e 34) as [->|N34']; [simple_case 34 s2 Hv|].
+  intros H; discriminate H.
+Qed.
+
+Lemma unquote_loop_nil f : unquote_loop f [] = None.
+Proof. destruct f; reflexivity. Qed.
+
+Lemma unquote_loop_sound fuel : forall s bs,
+  wf_bytes s = true -> valid s -> unquote_loop fuel (s ++ [34]) = Some bs -> denotes_payload s bs.
+Proof.
+  induction fuel as [|f IH]; intros s bs Hwf Hv; [intros H; discriminate H|].
+  destruct s as [|c s1].
+  - intros H. cbn in H. injection H as <-. constructor.
+  - cbn [app unquote_loop].
+    destruct (Z.eqb_spec c 34) as [->|N34]; [destruct s1; cbn [app]; intros H; discriminate H|].
+    destruct (Z.eqb_spec c 10) as [->|N10]; [intros H; discriminate H|].
+    destruct (unquote_char (c :: s1 ++ [34])) as [[out rest]|] eqn:Hu; [|intros H; discriminate H].
+    destruct (unquote_loop f rest) as [o|] eqn:Hl; [|intros H; discriminate H].
+    intros H. injection H as <-.
+    assert (Hc0 : 0 <= c).
+    { cbn [wf_bytes forallb] in Hwf. apply andb_true_iff in Hwf. destruct Hwf as [Hb _].
+      apply is_byte_iff in Hb. lia. }
+    destruct (unquote_char_sound c s1 out rest Hc0 Hv N34 N10 Hu)
+      as [->|(item & s' & Hs & -> & Hv' & Hd)].
+    + rewrite unquote_loop_nil in Hl. discriminate Hl.
+    + apply Hd. apply (IH s' o); [|exact Hv'|exact Hl].
+      rewrite Hs in Hwf. exact (wf_bytes_app_r _ _ Hwf).
+Qed.
+
+(* ---------------------------------------------------------------- the fast path *)
+
+Lemma mem_app_false c a b : mem c (a ++ b) = false -> mem c b = false.
+Proof. rewrite mem_app, orb_false_iff. tauto. Qed.
+
+Lemma raw_denotes fuel : forall s,
+  wf_bytes s = true -> utf8_valid_f fuel s = true ->
+  mem 34 s = false -> mem 92 s = false -> mem 10 s = false -> denotes_payload s s.
+Proof.
+  induction fuel as [|f IH]; intros s Hwf Hv H34 H92 H10; destruct s as [|c t]; try apply D_nil.
+  - discriminate Hv.
+  - cbn [utf8_valid_f] in Hv.
+    destruct (decode_rune (c :: t)) as [[r rest]|] eqn:Hd; [|discriminate Hv].
+    destruct (Z.ltb_spec c 128) as [Hc|Hc].
+    + rewrite (decode_rune_ascii _ _ Hc) in Hd. injection Hd as <- <-.
+      apply mem_cons_false in H34. apply mem_cons_false in H92. apply mem_cons_false in H10.
+      cbn [wf_bytes forallb] in Hwf. apply andb_true_iff in Hwf. destruct Hwf as [Hb Hwf].
+      apply is_byte_iff in Hb.
+      apply D_raw; [lia|tauto|tauto|tauto|]. apply IH; tauto.
+    + destruct (decode_rune_multi _ _ _ _ Hc Hd) as (sq & Hsq & Hseq & _ & _).
+      rewrite Hsq in Hwf, H34, H92, H10 |- *.
+      apply D_utf8; [exact Hseq|].
+      apply IH; [exact (wf_bytes_app_r _ _ Hwf)|exact Hv|
+                 exact (mem_app_false _ _ _ H34)|exact (mem_app_false _ _ _ H92)|exact (mem_app_false _ _ _ H10)].
+Qed.
+
+Lemma until_quote_full s : length (until_quote s) = length s -> mem 34 s = false.
+Proof.
+  induction s as [|c s IH]; [reflexivity|]. cbn [until_quote].
+  destruct (Z.eqb_spec c 34) as [->|N]; cbn [length]; intros H; [discriminate H|].
+  apply mem_cons_false. split; [exact N|]. apply IH. congruence.
+Qed.
+
+(* Every accepted payload text is a sentence of the grammar and the result is what it denotes. *)
+Theorem payload_exact : forall s bs,
+  wf_bytes s = true -> parse_payload s = Some bs -> denotes_payload s bs.
+Proof.
+  intros s bs Hwf. unfold parse_payload.
+  destruct (utf8_valid s) eqn:Hv; [|intros H; discriminate H].
+  unfold unquote_body. cbv zeta.
+  destruct (negb (mem 92 (until_quote s)) && negb (mem 10 (until_quote s)) && utf8_valid (until_quote s))
+    eqn:C.
+  - destruct (Nat.eqb (length (until_quote s)) (length s)) eqn:L; [|intros H; discriminate H].
+    intros H. injection H as <-.
+    apply Nat.eqb_eq in L. apply until_quote_full in L.
+    rewrite (until_quote_id _ L) in C.
+    apply andb_true_iff in C. destruct C as [C _]. apply andb_true_iff in C. destruct C as [C1 C2].
+    apply negb_true_iff in C1. apply negb_true_iff in C2.
+    exact (raw_denotes (length s) s Hwf Hv L C1 C2).
+  - intros H. exact (unquote_loop_sound _ s bs Hwf (valid_of_utf8_valid _ Hv) H).
+Qed.
+
+(* ---------------------------------------------------------------- 5. the converse: the grammar is accepted *)
+
+Lemma utf8_seq_decode sq : utf8_seq sq ->
+  exists b0 t r, sq = b0 :: t /\ 128 <= b0 /\
+                 (forall rest, decode_rune (sq ++ rest) = Some (r, rest)).
+Proof.
+  intros H. destruct sq as [|b0 [|b1 [|b2 [|b3 [|b4 t]]]]]; unfold utf8_seq in H; try contradiction.
+  - exists b0, [b1], ((b0 - 192) * 64 + (b1 - 128)).
+    split; [reflexivity|]. split; [lia|]. intros rest. cbn [app]. unfold decode_rune.
+    rewrite (proj2 (Z.ltb_ge b0 128)) by lia. rewrite (proj2 (in_range_iff 194 223 b0)) by lia.
+    unfold cont. rewrite (proj2 (in_range_iff 128 191 b1)) by lia. reflexivity.
+  - exists b0, [b1; b2], ((b0 - 224) * 4096 + (b1 - 128) * 64 + (b2 - 128)).
+    split; [reflexivity|]. split; [lia|]. intros rest. cbn [app]. unfold decode_rune.
+    rewrite (proj2 (Z.ltb_ge b0 128)) by lia. rewrite (proj2 (in_range_false 194 223 b0)) by lia.
+    rewrite (proj2 (in_range_iff 224 239 b0)) by lia. cbv iota zeta.
+    unfold cont. rewrite (proj2 (in_range_iff 128 191 b2)) by lia.
+    rewrite (proj2 (in_range_iff _ _ b1))
+      by (destruct (Z.eqb_spec b0 224); destruct (Z.eqb_spec b0 237); lia).
+    reflexivity.
+  - exists b0, [b1; b2; b3],
+      ((b0 - 240) * 262144 + (b1 - 128) * 4096 + (b2 - 128) * 64 + (b3 - 128)).
+    split; [reflexivity|]. split; [lia|]. intros rest. cbn [app]. unfold decode_rune.
+    rewrite (proj2 (Z.ltb_ge b0 128)) by lia. rewrite (proj2 (in_range_false 194 223 b0)) by lia.
+    rewrite (proj2 (in_range_false 224 239 b0)) by lia.
+    rewrite (proj2 (in_range_iff 240 244 b0)) by lia. cbv iota zeta.
+    unfold cont. rewrite (proj2 (in_range_iff 128 191 b2)) by lia.
+    rewrite (proj2 (in_range_iff 128 191 b3)) by lia.
+    rewrite (proj2 (in_range_iff _ _ b1))
+      by (destruct (Z.eqb_spec b0 240); destruct (Z.eqb_spec b0 244); lia).
+    reflexivity.
+Qed.
+
+Lemma utf8_seq_encode sq : utf8_seq sq ->
+  exists b0 t r, sq = b0 :: t /\ 128 <= b0 /\ encode_rune r = sq /\
+                 (forall rest, decode_rune (sq ++ rest) = Some (r, rest)).
+Proof.
+  intros H. destruct (utf8_seq_decode sq H) as (b0 & t & r & -> & Hb & Hd).
+  exists b0, t, r. split; [reflexivity|]. split; [exact Hb|]. split; [|exact Hd].
+  pose proof (Hd []) as Hd0. rewrite app_nil_r in Hd0.
+  destruct (decode_rune_multi _ _ _ _ Hb Hd0) as (sq' & Hsq & _ & Henc & _).
+  rewrite app_nil_r in Hsq. congruence.
+Qed.
+
+Lemma utf8_seq_high sq : utf8_seq sq -> forall b, In b sq -> 128 <= b.
+Proof.
+  intros H. destruct sq as [|b0 [|b1 [|b2 [|b3 [|b4 t]]]]]; unfold utf8_seq in H; try contradiction;
+    intros b Hb; cbn [In] in Hb; lia.
+Qed.
+
+Lemma utf8_seq_length sq : utf8_seq sq -> (2 <= length sq)%nat.
+Proof.
+  intros H. destruct sq as [|b0 [|b1 t]]; unfold utf8_seq in H; try contradiction. cbn [length]. lia.
+Qed.
+
+Lemma hex_val_complete ds xs : Forall2 hexdig ds xs ->
+  forall acc r, hex_val (length ds) acc (ds ++ r) = Some (hexfold xs acc, r).
+Proof.
+  induction 1 as [|c x ds xs Hc _ IH]; intros acc r; [reflexivity|].
+  cbn [length app hex_val]. rewrite (proj2 (unhex_iff c x) Hc). apply IH.
+Qed.
+
+(* validity of a sentence *)
+Lemma valid_f_ascii_app ds rest :
+  ascii ds = true ->
+  (forall f, (length rest <= f)%nat -> utf8_valid_f f rest = true) ->
+  forall f, (length (ds ++ rest) <= f)%nat -> utf8_valid_f f (ds ++ rest) = true.
+Proof.
+  intros Ha Hr. induction ds as [|d ds IH]; intros f Hl; [apply Hr; exact Hl|].
+  apply ascii_cons in Ha. destruct Ha as [Hd Ha].
+  cbn [app length] in Hl. destruct f as [|f]; [lia|].
+  cbn [app utf8_valid_f]. rewrite (decode_rune_ascii _ _ Hd). apply IH; [exact Ha|lia].
+Qed.
+
+Lemma hex_number_ascii ds v : hex_number ds v -> ascii ds = true.
+Proof. intros (xs & HF & _). exact (hexdigs_ascii _ _ HF). Qed.
+
+Lemma denotes_valid s bs : denotes_payload s bs ->
+  forall f, (length s <= f)%nat -> utf8_valid_f f s = true.
+Proof.
+  induction 1 as [|c rest o Hc N34 N92 N10 _ IH|sq rest o Hsq _ IH|e v rest o He _ IH
+                 |h1 h2 x1 x2 rest o Hx1 Hx2 _ IH|d0 d1 d2 v rest o O0 O1 O2 Hv Hle _ IH
+                 |ds v rest o Hl Hn Hs _ IH|ds v rest o Hl Hn Hs _ IH].
+  - intros f _. destruct f; reflexivity.
+  - apply (valid_f_ascii_app [c] rest); [|exact IH]. apply ascii_cons. split; [lia|reflexivity].
+  - intros f Hl. destruct (utf8_seq_decode sq Hsq) as (b0 & t & r & E & Hb & Hd).
+    pose proof (utf8_seq_length sq Hsq) as L2. rewrite app_length in Hl.
+    destruct f as [|f]; [lia|].
+    rewrite E. cbn [app utf8_valid_f]. change (b0 :: t ++ rest) with ((b0 :: t) ++ rest).
+    rewrite <- E, Hd. apply IH. lia.
+  - apply (valid_f_ascii_app [92; e] rest); [|exact IH].
+    rewrite !ascii_cons. unfold simple_escape in He. repeat split; lia.
+  - apply (valid_f_ascii_app [92; 120; h1; h2] rest); [|exact IH].
+    pose proof (hexdig_ascii _ _ Hx1). pose proof (hexdig_ascii _ _ Hx2).
+    rewrite !ascii_cons. repeat split; lia.
+  - apply (valid_f_ascii_app [92; d0; d1; d2] rest); [|exact IH].
+    unfold octdig in *. rewrite !ascii_cons. repeat split; lia.
+  - apply (valid_f_ascii_app (92 :: 117 :: ds) rest); [|exact IH].
+    rewrite !ascii_cons. split; [lia|]. split; [lia|]. exact (hex_number_ascii _ _ Hn).
+  - apply (valid_f_ascii_app (92 :: 85 :: ds) rest); [|exact IH].
+    rewrite !ascii_cons. split; [lia|]. split; [lia|]. exact (hex_number_ascii _ _ Hn).
+Qed.
+
+(* one step of the loop per item *)
+Lemma loop_item c t rest out o fuel :
+  c <> 34 -> c <> 10 ->
+  unquote_char ((c :: t) ++ rest ++ [34]) = Some (out, rest ++ [34]) ->
+  (forall f, (length rest < f)%nat -> unquote_loop f (rest ++ [34]) = Some o) ->
+  (length ((c :: t) ++ rest) < fuel)%nat ->
+  unquote_loop fuel (((c :: t) ++ rest) ++ [34]) = Some (out ++ o).
+Proof.
+  intros N34 N10 Hu IH Hl. destruct fuel as [|f]; [lia|].
+  rewrite <- app_assoc. cbn [app] in *.
+  rewrite (unquote_loop_step f c _ out (rest ++ [34]) N34 N10 Hu).
+  rewrite IH; [reflexivity|]. cbn [length] in Hl. rewrite app_length in Hl. lia.
+Qed.
+
+Lemma unquote_char_raw c q : c < 128 -> c <> 34 -> c <> 92 -> unquote_char (c :: q) = Some ([c], q).
+Proof.
+  intros Hc N34 N92. unfold unquote_char.
+  rewrite (eqb_false _ _ N34), (proj2 (Z.leb_gt 128 c) Hc), (eqb_false _ _ N92). reflexivity.
+Qed.
+
+Lemma unquote_char_utf8 sq q : utf8_seq sq -> unquote_char (sq ++ q) = Some (sq, q).
+Proof.
+  intros H. destruct (utf8_seq_encode sq H) as (b0 & t & r & E & Hb & Henc & Hd).
+  pose proof (Hd q) as Hq. rewrite E in Hq |- *. cbn [app] in Hq |- *. unfold unquote_char.
+  rewrite (eqb_false b0 34) by lia. rewrite (proj2 (Z.leb_le 128 b0) Hb), Hq, Henc, E. reflexivity.
+Qed.
+
+Lemma unquote_char_simple e v q : simple_escape e v -> unquote_char (92 :: e :: q) = Some ([v], q).
+Proof.
+  unfold simple_escape. intros H.
+  repeat (destruct H as [[-> ->]|H]; [reflexivity|]). destruct H as [-> ->]. reflexivity.
+Qed.
+
+Lemma unquote_char_oct d0 d1 d2 q :
+  octdig d0 -> octdig d1 -> octdig d2 ->
+  ((d0 - 48) * 8 + (d1 - 48)) * 8 + (d2 - 48) <= 255 ->
+  unquote_char (92 :: d0 :: d1 :: d2 :: q) = Some ([((d0 - 48) * 8 + (d1 - 48)) * 8 + (d2 - 48)], q).
+Proof.
+  unfold octdig. intros O0 O1 O2 Hle. unfold unquote_char.
+  change (92 =? 34) with false. change (128 <=? 92) with false. change (92 =? 92) with true.
+  cbn [negb].
+  repeat match goal with |- context [d0 =? ?k] => rewrite (eqb_false d0 k) by lia end.
+  unfold is_octal. rewrite !(proj2 (in_range_iff 48 55 _)) by lia.
+  cbv iota zeta. cbn [andb]. rewrite (proj2 (Z.leb_le _ 255) Hle). reflexivity.
+Qed.
+
+Lemma unquote_char_u ds v q :
+  length ds = 4%nat -> hex_number ds v -> scalar_value v ->
+  unquote_char (92 :: 117 :: ds ++ q) = Some (encode_rune v, q).
+Proof.
+  intros Hl (xs & HF & ->) Hs. pose proof (hex_val_complete ds xs HF 0 q) as Hh. rewrite Hl in Hh.
+  unfold unquote_char. rewrite Hh, (proj2 (valid_rune_iff _) Hs). reflexivity.
+Qed.
+
+Lemma unquote_char_U ds v q :
+  length ds = 8%nat -> hex_number ds v -> scalar_value v ->
+  unquote_char (92 :: 85 :: ds ++ q) = Some (encode_rune v, q).
+Proof.
+  intros Hl (xs & HF & ->) Hs. pose proof (hex_val_complete ds xs HF 0 q) as Hh. rewrite Hl in Hh.
+  unfold unquote_char. rewrite Hh, (proj2 (valid_rune_iff _) Hs). reflexivity.
+Qed.
+
+Lemma denotes_loop s bs : denotes_payload s bs ->
+  forall fuel, (length s < fuel)%nat -> unquote_loop fuel (s ++ [34]) = Some bs.
+Proof.
+  induction 1 as [|c rest o Hc N34 N92 N10 _ IH|sq rest o Hsq _ IH|e v rest o He _ IH
+                 |h1 h2 x1 x2 rest o Hx1 Hx2 _ IH|d0 d1 d2 v rest o O0 O1 O2 Hv Hle _ IH
+                 |ds v rest o Hl Hn Hs _ IH|ds v rest o Hl Hn Hs _ IH]; intros fuel Hf.
+  - destruct fuel as [|f]; [cbn in Hf; lia|reflexivity].
+  - apply (loop_item c [] rest [c] o fuel N34 N10); [|exact IH|exact Hf].
+    apply unquote_char_raw; [lia|exact N34|exact N92].
+  - destruct (utf8_seq_decode sq Hsq) as (b0 & t & r & E & Hb & _).
+    pose proof (unquote_char_utf8 sq (rest ++ [34]) Hsq) as Hu. subst sq.
+    apply (loop_item b0 t rest (b0 :: t) o fuel); [lia|lia|exact Hu|exact IH|exact Hf].
+  - apply (loop_item 92 [e] rest [v] o fuel); [lia|lia| |exact IH|exact Hf].
+    apply unquote_char_simple. exact He.
+  - apply (loop_item 92 [120; h1; h2] rest [16 * x1 + x2] o fuel); [lia|lia| |exact IH|exact Hf].
+    cbn [app]. rewrite (unquote_char_hex h1 h2 x1 x2 _ (proj2 (unhex_iff _ _) Hx1) (proj2 (unhex_iff _ _) Hx2)).
+    f_equal. f_equal. f_equal. lia.
+  - apply (loop_item 92 [d0; d1; d2] rest [v] o fuel); [lia|lia| |exact IH|exact Hf].
+    subst v. apply unquote_char_oct; assumption.
+  - apply (loop_item 92 (117 :: ds) rest (encode_rune v) o fuel); [lia|lia| |exact IH|exact Hf].
+    cbn [app]. apply unquote_char_u; assumption.
+  - apply (loop_item 92 (85 :: ds) rest (encode_rune v) o fuel); [lia|lia| |exact IH|exact Hf].
+    cbn [app]. apply unquote_char_U; assumption.
+Qed.
+
+(* without a backslash before the first dquote there is no escape at all *)
+Lemma until_quote_app_high sq rest :
+  (forall b, In b sq -> b <> 34) -> until_quote (sq ++ rest) = sq ++ until_quote rest.
+Proof.
+  induction sq as [|x sq IH]; intros H; [reflexivity|].
+  cbn [app until_quote]. rewrite (eqb_false x 34) by (apply H; left; reflexivity).
+  rewrite IH; [reflexivity|]. intros b Hb. apply H. right. exact Hb.
+Qed.
+
+Lemma mem_until_quote_escape x : mem 92 (until_quote (92 :: x)) = true.
+Proof. reflexivity. Qed.
+
+Lemma denotes_no_escape s bs : denotes_payload s bs ->
+  mem 92 (until_quote s) = false -> until_quote s = s /\ bs = s.
+Proof.
+  induction 1 as [|c rest o Hc N34 N92 N10 _ IH|sq rest o Hsq _ IH|e v rest o He _ IH
+                 |h1 h2 x1 x2 rest o Hx1 Hx2 _ IH|d0 d1 d2 v rest o O0 O1 O2 Hv Hle _ IH
+                 |ds v rest o Hl Hn Hs _ IH|ds v rest o Hl Hn Hs _ IH]; intros Hm;
+    try (rewrite mem_until_quote_escape in Hm; discriminate Hm).
+  - split; reflexivity.
+  - cbn [until_quote] in Hm |- *. rewrite (eqb_false _ _ N34) in Hm |- *.
+    apply mem_cons_false in Hm. destruct Hm as [_ Hm]. destruct (IH Hm) as [E1 E2].
+    rewrite E1, E2. split; reflexivity.
+  - assert (Hh : forall b, In b sq -> b <> 34).
+    { intros b Hb. pose proof (utf8_seq_high sq Hsq b Hb). lia. }
+    rewrite (until_quote_app_high sq rest Hh) in Hm |- *.
+    rewrite mem_app in Hm. apply orb_false_iff in Hm. destruct Hm as [_ Hm].
+    destruct (IH Hm) as [E1 E2]. rewrite E1, E2. split; reflexivity.
+Qed.
+
+(* Every sentence of the grammar is accepted, with the denoted bytes as the result. *)
+Theorem payload_complete : forall s bs, denotes_payload s bs -> parse_payload s = Some bs.
+Proof.
+  intros s bs H. unfold parse_payload.
+  assert (Hv : utf8_valid s = true) by (apply (denotes_valid _ _ H); apply Nat.le_refl).
+  rewrite Hv. unfold unquote_body. cbv zeta.
+  destruct (negb (mem 92 (until_quote s)) && negb (mem 10 (until_quote s)) && utf8_valid (until_quote s))
+    eqn:C.
+  - apply andb_true_iff in C. destruct C as [C _]. apply andb_true_iff in C. destruct C as [C1 _].
+    apply negb_true_iff in C1. destruct (denotes_no_escape _ _ H C1) as [E ->].
+    rewrite E, Nat.eqb_refl. reflexivity.
+  - apply (denotes_loop _ _ H). apply Nat.lt_succ_diag_r.
+Qed.
+
+(* The parser accepts exactly the grammar. *)
+Theorem payload_grammar_iff : forall s bs,
+  wf_bytes s = true -> (parse_payload s = Some bs <-> denotes_payload s bs).
+Proof. intros s bs Hwf. split; [apply payload_exact; exact Hwf|apply payload_complete]. Qed.
+
+(* hence the grammar is unambiguous about the denoted bytes *)
+Corollary denotes_payload_functional : forall s bs bs',
+  denotes_payload s bs -> denotes_payload s bs' -> bs = bs'.
+Proof.
+  intros s bs bs' H H'. apply payload_complete in H. apply payload_complete in H'. congruence.
+Qed.
+
+Print Assumptions payload_hex_roundtrip.
+Print Assumptions payload_literal.
 Print Assumptions payload_ascii_literal.
 Print Assumptions payload_v0_replaces_ill_formed.
 Print Assumptions payload_rejects_ill_formed.
+Print Assumptions payload_exact.
+Print Assumptions payload_complete.
+Print Assumptions payload_grammar_iff.
+Print Assumptions denotes_payload_functional.
